@@ -1138,6 +1138,24 @@ class Enumerator:
             return [(st, bool(t.value) != neg)]
         if isinstance(t, ast.UnaryOp) and isinstance(t.op, ast.Not):
             return [(s, (not v)) for s, v in self._atom(t.operand, st, node)] if not neg else self._atom(t.operand, st, node)
+        if isinstance(t, ast.BoolOp) and not neg:
+            # a condition hoisted into a local (`ok = a and b; if ok:`) is decided on its operands, short-circuit order kept;
+            # the term is closed (already substituted), so the operands go straight to _atom
+            is_and = isinstance(t.op, ast.And)
+            res, pending = [], [st]
+            for v in t.values:
+                nxt = []
+                for cur in pending:
+                    for s2, truth in self._atom(v, cur, node):
+                        if is_and and not truth:
+                            res.append((s2, False))
+                        elif not is_and and truth:
+                            res.append((s2, True))
+                        else:
+                            nxt.append(s2)
+                pending = nxt
+            res.extend((s2, is_and) for s2 in pending)
+            return res
         # exception errno tests
         dec = self._errno_test(t, st)
         if dec is not None:
